@@ -81,10 +81,10 @@ Definition sstep (s : sstate) (o : op W) : sstate * obs W :=
       match ss_view s, ss_evd s with
       | Some vw, Some evd =>
           let cur := full_tv vw (ss_srcf s) (ss_cur s) ns x in
-          (mksst (ss_view s) (ss_srcf s) (ss_cur s) (ss_evd s)
-                 (match pure_nsg cur evd ns x with Some g => Some g | None => ss_nsg s end),
+          (* the ns-gradients are those of THIS evaluation (none when it raises) *)
+          (mksst (ss_view s) (ss_srcf s) (ss_cur s) (ss_evd s) (pure_nsg cur evd ns x),
            OEval W (pure_eval cur evd ns x))
-      | _, _ => (s, OEval W (Err TypeError))
+      | _, _ => (mksst (ss_view s) (ss_srcf s) (ss_cur s) (ss_evd s) None, OEval W (Err TypeError))
       end
   | NsGrad2 _ ns =>
       (s, ONs2 W (match ss_nsg s, ss_view s with
